@@ -11,6 +11,8 @@ from pycoin.coins.bitcoin.ScriptTools import BitcoinScriptTools
 from pycoin.networks.registry import network_for_netcode
 from pycoin.satoshi.IntStreamer import IntStreamer
 
+from gen import subproc
+
 PROPERTY = "C12"
 ASSUMPTIONS = [
     "oracles/refscriptnum.py: CScriptNum::serialize / set_vch / fRequireMinimal test, CheckMinimalPush, CScript::GetOp and the "
@@ -545,6 +547,9 @@ SUBCHECKS = [
                   "deviations of a case are raised together so a listed finding cannot hide another one"),
     SubCheck("push_prefixes_generated", o_push_prefixes, strategy=s_push, budget=(1500, 60000),
              rule="generated data as in pushes_generated; same prefix oracle"),
+    SubCheck("push_prefixes_python_O", subproc.optimized_variant("checks.c12_scriptenc", "o_push_prefixes"), strategy=s_push, budget=(300, 10000),
+             rule="the push_prefixes_generated cases evaluated in a child interpreter started with PYTHONOPTIMIZE=1 (python -O: assert statements are "
+                  "compiled away, so validation written as an assert vanishes; the child asserts that mode)"),
     SubCheck("truncated_small", o_truncated, cases=cases_truncated_small, exhaustive=True, nontrivial=nt_truncated,
              rule="PUSHDATA1/2/4 with 0..w length bytes present, declared sizes {1,2,76,255,256,65535}, 0/1/size-1 data bytes, "
                   "after 0-2 other instructions; direct pushes 1..75 with 0/1/n-1 bytes: must be reported malformed; "
